@@ -12,6 +12,46 @@ def nontrivial(req, obs):
     return len(f) > 3 and f[3].count(";") >= 1
 
 
+# The witness search of tools/vlib.py (after a model disagreement / broken obligation without a failing input) first calls
+# SPEC.search and then starts three more harness runs on other seeds *at the tier of the check*: at thorough that was three
+# more ~5 min runs (the 1344 s of the seed-1 soak).  `search` marks the search phase and `harness_args` then caps those
+# runs at 300 progen + 300 wide programs each (~20 s), so a thorough check that has to search stays under ~10 min.
+_PHASE = {"search": False}
+TARGETS = ["dx", "vk", "vkba", "msl"]
+
+
+def harness_args(tier, seed):
+    return ["--n", "300"] if _PHASE["search"] else []
+
+
+def search(ctx):
+    """targeted candidates: every disagreeing wide / select request again on every target and in every selection mode
+    (whole file, each pipeline by name, a missing name, no-pipeline): if the disagreement hides an independence
+    violation the harness's own oracle (whole == by name == alone) shows it on one of these."""
+    _PHASE["search"] = True
+    out, seen = [], set()
+    for req, _obs, _mobs in ctx.disagreements[:40]:
+        f = req.split("\t")
+        if f[0] == "C17.wide" and len(f) == 7:
+            names = [it.split(" ")[1] for it in f[4].split(" | ") if it.startswith("P ") and len(it.split(" ")) > 1]
+            modes = ["all", "nopipeline", "name=Nope"] + ["name=" + n for n in dict.fromkeys(names)]
+            for t in TARGETS:
+                for m in modes:
+                    r = "\t".join([f[0], t, m] + f[3:])
+                    if r not in seen:
+                        seen.add(r)
+                        out.append(r)
+        elif f[0] == "C17.select" and len(f) == 6:
+            names = [x.split(":")[0].rstrip("!") for x in f[3].split(";") if x]
+            for t in TARGETS:
+                for m in ["all", "nopipeline", "name=Nope"] + ["name=" + n for n in dict.fromkeys(names)]:
+                    r = "\t".join([f[0], t, m] + f[3:])
+                    if r not in seen:
+                        seen.add(r)
+                        out.append(r)
+    return out[:1500]
+
+
 SPEC = {
     "id": "C17",
     "gens": ["CompileTables", "PipelineTables", "Reserved"],
@@ -26,6 +66,8 @@ SPEC = {
         "Typer.whole_file_one_result_per_block", "Typer.front_error_independent_of_mode"]],
     "harness": "c17",
     "nontrivial": nontrivial,
+    "harness_args": harness_args,
+    "search": search,
     "rule": "(1) progen shader files (0-4 pipelines: compute, vertex+pixel, mesh+pixel, task+mesh; shared and private entry "
             "points, shared resources, helper call graphs, interleaved layout) x {dx, vk, vk+buffer-address, msl} x {all, an "
             "existing name, unknown name, no-pipeline}; (2) self-contained 'wide' programs (harness/src/c17/wgen.rs: 21 resource "
